@@ -147,7 +147,7 @@ func propConfig(id, verifDir string) PropConfig {
 	switch id {
 	case "C09":
 		return PropConfig{Pkgs: []string{"./util"}, ExtSpecs: ext}
-	case "C06", "C18":
+	case "C06", "C18", "C13":
 		return PropConfig{Pkgs: []string{"./util", "./ytypes"}, ExtSpecs: ext}
 	case "C28":
 		return PropConfig{Pkgs: []string{"./protogen"}, ExtSpecs: ext}
